@@ -104,6 +104,7 @@ type runCtx struct {
 	tier    string
 	seed    uint64
 	known   string // comma separated violation classes listed as known findings for this property
+	flaky   bool   // the tree has nondeterminism the simulator cannot own: replay attempts are repeated
 }
 
 func newRunCtx(info *buildInfo, prop, tier string, seed uint64) (*runCtx, error) {
